@@ -70,6 +70,31 @@ Definition mdvd_write_cue (c : Z * Z * list str) : str :=
 
 Definition mdvd_write (cs : list (Z * Z * list str)) : str := flat_map mdvd_write_cue cs.
 
+(* ---- SRT at string level (wave 5): the document SRTWriter prints for captions given as text lines: per caption the
+   counter, the timing line, the lines, a blank line; the final character is removed (srt[:-1]).  For the captions of the
+   domain (distinct spans, clean lines) the writer's merge loop and its clean-up of the content are the identity; the
+   harness compares this model's documents with the real writer's (request 804). *)
+Definition srt_write_block (k : Z) (c : Z * Z * list str) : str :=
+  let '(s, e, lines) := c in
+  dec_z k ++ [10] ++ srt_ts (inject_Z s) ++ lit " --> " ++ srt_ts (inject_Z e) ++ [10] ++ join [10] lines ++ [10; 10].
+Fixpoint srt_write_blocks (k : Z) (cs : list (Z * Z * list str)) : str :=
+  match cs with [] => [] | c :: t => srt_write_block k c ++ srt_write_blocks (k + 1) t end.
+Definition srt_write_doc (cs : list (Z * Z * list str)) : str := removelast (srt_write_blocks 1 cs).
+
+(* a hop at DOCUMENT level for the line formats whose writer is modelled at string level: print the document, read it
+   with the model of the format's reader; captions are (start, end, text lines) *)
+Definition hop_doc (f : fmt) (cs : list (Z * Z * list str)) : result (list (Z * Z * list str)) :=
+  match f with
+  | FSrt => srt_read (srt_write_doc cs)
+  | FMdvd => mdvd_read (mdvd_write cs)
+  | _ => Err ENotImplemented
+  end.
+Fixpoint run_doc (chain : list fmt) (cs : list (Z * Z * list str)) : result (list (Z * Z * list str)) :=
+  match chain with
+  | [] => Ok cs
+  | f :: t => match hop_doc f cs with Ok r => run_doc t r | Err e => Err e end
+  end.
+
 (* ---- caption sets with several languages: DFXP and SAMI carry them (one <div> / one class each);
    a hop converts every language on its own ------------------------------------------------------------ *)
 Definition capset : Type := list (str * list cue).
